@@ -704,3 +704,107 @@ func ruleR2_12(r *Run) {
 	}
 	r.check(n >= 2, "server:fullwrite-stores", fmt.Sprintf("%d stores to the override", n), "stores to server.fullwrite not found", "-")
 }
+
+func init() {
+	register(ruleDef{ID: "R14.6", Prop: "C14", Tier: "quick", Floor: 2,
+		Title: "octant selection is defined for negative block coordinates: an array index derived from a block coordinate uses a non-negative reduction (& 1), never the signed remainder (% 2), matching the arithmetic shift that computes the parent block",
+		Fn:    ruleR14_6})
+	register(ruleDef{ID: "R20.10", Prop: "C20", Tier: "quick", Floor: 2,
+		Title: "no negative array index from a signed remainder (shared with R14.6): an index computed as coordinate % k is negative for negative odd coordinates and panics",
+		Fn:    ruleR14_6})
+}
+
+// remOfSignedCoord: v (an index expression) contains, through +, <<, |, * and conversions, a signed
+// remainder whose dividend comes from a block/voxel coordinate.
+func remOfSignedCoord(v ssa.Value, f *ssa.Function, depth int) *ssa.BinOp {
+	if depth > 8 {
+		return nil
+	}
+	switch x := v.(type) {
+	case *ssa.Convert:
+		return remOfSignedCoord(x.X, f, depth+1)
+	case *ssa.BinOp:
+		if x.Op == token.REM {
+			if b, ok := x.X.Type().Underlying().(*types.Basic); ok && b.Info()&types.IsInteger != 0 && b.Info()&types.IsUnsigned == 0 {
+				if _, _, isAxis := axisOf(x.X); isAxis {
+					return x
+				}
+			}
+			return nil
+		}
+		switch x.Op {
+		case token.ADD, token.SHL, token.OR, token.MUL, token.SUB:
+			if r := remOfSignedCoord(x.X, f, depth+1); r != nil {
+				return r
+			}
+			return remOfSignedCoord(x.Y, f, depth+1)
+		}
+	case *ssa.Phi:
+		for _, e := range x.Edges {
+			if r := remOfSignedCoord(e, f, depth+1); r != nil {
+				return r
+			}
+		}
+	}
+	return nil
+}
+
+func ruleR14_6(r *Run) {
+	w := r.W
+	n := 0
+	for _, f := range w.RepoFuncs {
+		if len(f.Blocks) == 0 || strings.HasSuffix(w.fposFile(f), "_test.go") {
+			continue
+		}
+		p := relPkg(pkgPathOf(f))
+		if !strings.HasPrefix(p, "datatype/") && p != "dvid" {
+			continue
+		}
+		k := 0
+		for _, b := range f.Blocks {
+			for _, in := range b.Instrs {
+				var idx ssa.Value
+				switch x := in.(type) {
+				case *ssa.IndexAddr:
+					idx = x.Index
+				case *ssa.Index:
+					idx = x.Index
+				default:
+					continue
+				}
+				// only indices that combine coordinate components matter here
+				if _, isConst := idx.(*ssa.Const); isConst {
+					continue
+				}
+				uses := false
+				var walk func(v ssa.Value, d int)
+				walk = func(v ssa.Value, d int) {
+					if d > 8 || uses {
+						return
+					}
+					if _, _, ok := axisOf(v); ok {
+						uses = true
+						return
+					}
+					switch x := v.(type) {
+					case *ssa.Convert:
+						walk(x.X, d+1)
+					case *ssa.BinOp:
+						walk(x.X, d+1)
+						walk(x.Y, d+1)
+					}
+				}
+				walk(idx, 0)
+				if !uses {
+					continue
+				}
+				n++
+				k++
+				rem := remOfSignedCoord(idx, f, 0)
+				r.check(rem == nil, fmt.Sprintf("%s:coordinate-index#%d", fname(f), k), "the index built from block coordinates uses no signed remainder",
+					"an array index is built from `coordinate % k` of a signed block coordinate: for negative odd coordinates the remainder is −1, the index is negative and the access panics (blocks at negative coordinates can never be down-sampled)", w.pos(in.Pos()))
+			}
+		}
+	}
+	r.check(n >= 2, "repo:coordinate-derived-indices", fmt.Sprintf("%d array accesses indexed by block-coordinate arithmetic", n), "no coordinate-derived array index found: rule needs review", "-")
+}
